@@ -194,7 +194,12 @@ claim('C02', 'Lean theorems: whole-path round trip encode_msg -> sentences -> de
       'on a field boundary or inside the variable-length tail, padding zero; m = the decoded message, i.e. m ranges '
       'over all messages the library can decode, shorter forms and normalised fields included: encode_msg(m) with any '
       'admissible talker/channel yields sentences that decode() maps back to exactly m - same class/variant, every '
-      'field equal; exception: variable-length text decoding to the empty string, findings F12/F13), prefix_tables '
+      'field equal; exception: variable-length text decoding to the empty string, findings F12/F13), '
+      'C02_roundtrip_values (value side: give every field a value the layout specification of C01 assigns to some '
+      'bit pattern of its width - any number of the wire grid, enum member, canonical text, binary content; shorter '
+      'variable-length tail allowed - with type/discriminator patterns selecting the class: encode_msg then decode() '
+      'returns exactly these values; wire_unsigned/_bool/_enum/_tenths/_position/_text give the explicit ranges), '
+      'prefix_tables '
       '(kernel-decided on the regenerated tables: the fields in front of the discriminator bits are never normalised), '
       'C02_encode_dict (encode_dict with `type` or `msg_type` is create followed by encode_msg), C02_create (create '
       'with all fields given builds exactly those values), C02_quantisation_positions/_decode/_tenths (encode rounds '
@@ -203,7 +208,8 @@ claim('C02', 'Lean theorems: whole-path round trip encode_msg -> sentences -> de
       'unchanged); known findings F15-F26 carry kernel-checked witnesses. Tie: encode_dict / encode_msg / decode of '
       'pyais vs the model on seeded in-range assignments of all 35 classes via `type`, `msg_type` and create(); pyais '
       'is checked directly against expected values computed from the standard.',
-      FLOAT_NOTE + 'The theorem quantifies over messages in the image of decoding; that create() coerces an '
-      'arbitrary in-range keyword assignment into such a message is covered by C02_create, the quantisation theorems '
-      '(exact arithmetic, not IEEE arithmetic) and the correspondence run, not by one theorem.',
+      FLOAT_NOTE + 'The theorems quantify over wire-representable values (the image of decoding, characterised on the '
+      'value side by Model.Wire); that create() coerces other in-range input (ints as str, floats off the wire '
+      'grid) into such a message is covered by C02_create, the quantisation theorems (exact arithmetic, not IEEE '
+      'arithmetic) and the correspondence run, not by one theorem.',
       'DESIGN.md §0.2, §5 C02')
